@@ -184,7 +184,7 @@ func itoa(i int) string {
 }
 
 // DefaultForType returns a literal default fitting the way Atlas writes defaults for the type: time,
-// json and uuid types get string literals (Atlas quotes every literal of these types), the other
+// json, uuid and user-defined (ANY) types get string literals (Atlas quotes every literal of these types), the other
 // classes get the canonical literal of their affinity (see DefaultFor).
 func DefaultForType(typ string, n int) *Default {
 	switch typ {
@@ -194,6 +194,8 @@ func DefaultForType(typ string, n int) *Default {
 		return &Default{Kind: "str", V: []string{"2020-01-02 03:04:05", "1999-12-31 23:59:59"}[n&1]}
 	case "json":
 		return &Default{Kind: "str", V: []string{"{}", "[1]"}[n&1]}
+	case "ANY":
+		return &Default{Kind: "str", V: []string{"d", "it's"}[n&1]}
 	case "uuid":
 		return &Default{Kind: "str", V: []string{"00000000-0000-0000-0000-000000000000", "11111111-1111-1111-1111-111111111111"}[n&1]}
 	}
